@@ -192,6 +192,12 @@ def read_lines(path):
         return [l.rstrip('\n') for l in f if l.strip() != '']
 
 
+def read_lines_keep(path):
+    """like read_lines but keeps empty lines (an empty observation is meaningful)"""
+    with open(path, errors='replace') as f:
+        return [l.rstrip('\n') for l in f]
+
+
 def write_lines(path, lines):
     with open(path, 'w') as f:
         for l in lines:
